@@ -203,6 +203,8 @@ func init() {
 	mk("QEfail", "model", nil, true, false, 1)
 	mk("QEconc", "events", []string{"valid"}, false, true, 1)
 	mk("QEchain", "nothing", []string{"valid"}, false, false, 3)
+	// QEconcNil: no query request; the expiry call against a concurrent callback of the same group
+	mk("QEconcNil", "model", nil, false, true, 1)
 }
 
 // JudgeQuery is the C15 oracle.
